@@ -360,6 +360,12 @@ func (t *Transport) run() {
 				for i := 0; i < length; i++ {
 					if cq.Rear().value.lastTime.Add(t.IdleConnTimeout).Before(time.Now()) {
 						pc := cq.Dequeue()
+						if pc.NumCalls() > 0 {
+							// handed out before it was retired and now carrying a call: keep it
+							pc.lastTime = t.now
+							cq.Enqueue(pc)
+							continue
+						}
 						vhook("t.idle.close", t, pc, vnano(pc.lastTime), vnumcalls(pc))
 						pc.Close()
 					} else {
@@ -406,10 +412,17 @@ func (t *Transport) CloseIdleConnections() {
 		length := cq.Length()
 		for i := 0; i < length; i++ {
 			pc := cq.Dequeue()
+			if pc.NumCalls() > 0 {
+				// not idle after all: a caller that got it before it was retired is using it
+				cq.Enqueue(pc)
+				continue
+			}
 			vhook("t.closeidle.idle", t, pc, 0, vnumcalls(pc))
 			pc.Close()
 		}
-		delete(t.idleConns, cq.addr)
+		if cq.Length() == 0 {
+			delete(t.idleConns, cq.addr)
+		}
 	}
 }
 
